@@ -394,8 +394,17 @@ func prepareInst(repo, verif, tier, prop string) (*InstInfo, error) {
 				if ii.typedefs[pk] == nil {
 					ii.typedefs[pk] = map[string]*tdesc{}
 				}
+				seenTd := map[string]bool{}
 				for _, td := range l {
-					ii.typedefs[pk][normName(td.Name)] = td.T
+					k := normName(td.Name)
+					if seenTd[k] {
+						// two schema names with the same Go-normalised key: neither is used
+						ii.typedefs[pk][k] = nil
+						ii.skipped = append(ii.skipped, fmt.Sprintf("%s: typedef names colliding after normalisation (%s): no contracts derived for them", base, td.Name))
+						continue
+					}
+					seenTd[k] = true
+					ii.typedefs[pk][k] = td.T
 				}
 			}
 			for base, l := range full.Enums {
@@ -417,6 +426,12 @@ func prepareInst(repo, verif, tier, prop string) (*InstInfo, error) {
 					n := st.GoName
 					if n == "" {
 						n = st.Name
+					}
+					if _, dup := ii.structs[pk][normName(n)]; dup {
+						// colliding names (e.g. a declared struct named like a function-arguments struct): neither is used
+						ii.structs[pk][normName(n)] = nil
+						ii.skipped = append(ii.skipped, fmt.Sprintf("%s: struct names colliding after normalisation (%s): no contracts derived for them", base, n))
+						continue
 					}
 					ii.structs[pk][normName(n)] = st.Fields
 					ii.kinds[pk][normName(n)] = st.Kind
